@@ -1049,9 +1049,17 @@ func triggerRevived(w *World, v Violation) string {
 	if delT < 0 {
 		return ""
 	}
+	// For the access properties the finding is what follows a revival: the revived
+	// subscription caches a verdict again and no trigger reaches it. The revival
+	// itself rests on a fresh access request (the delete cleared the verdict), so
+	// the request that revives is not excused, only those after it.
+	strict := v.Class == "data_on_invalidated_grant" || v.Class == "call_on_invalidated_grant"
 	for _, id := range c.Ref.ReqOrder {
 		q := c.Ref.Reqs[id]
 		if q.SentT > delT && !q.IsError && q.Resp > 0 && (q.RID == v.RID || q.ResRID == v.RID) && (q.Action == "subscribe" || q.Action == "get" || q.ResRID != "") {
+			if strict && q.RespT >= v.T {
+				continue
+			}
 			return "deleted-resource-revived"
 		}
 	}
